@@ -680,3 +680,83 @@ Example C01_failing_step_repaired :
   same_result_ab pF y3 (bwF (wF 6 2) empty_asys) = true /\
   same_result_ab pF y4 (bwF (wF 7 2) empty_asys) = true.
 Proof. vm_compute. repeat split; reflexivity. Qed.
+
+From SV Require Import model.EnginePlan proofs.EnginePlanProofs.
+
+(* ------------------------------------------------------------------------------------------ *)
+(* Dynamic plans: steps defined by steps while the build runs (model/EnginePlan.v)             *)
+(* ------------------------------------------------------------------------------------------ *)
+(* The full statement for the engine in which the plan is part of the build: for ALL programs,
+   ALL plan behaviours (which steps a step defines, as a function of what it read), ALL
+   well-formed universes of definitions and ALL finite sequences of worlds, building the last
+   world on what the earlier builds left has the trusted region (the workflow that the plans
+   define), the step states and the output contents of building it on nothing. *)
+Definition C01_plan_full : Prop :=
+  forall run plan U, wf_u U = true ->
+    C01_full_for (p_empty U) (build_world_p run plan U) (same_result_p U).
+
+(* One half holds for all universes: the result of a build from scratch is DETERMINED by the
+   world.  [Finished_p] = in the trusted region the creator links are what the creators define on
+   the present contents, and a trusted step is SUCCEEDED with outputs run(inputs, variables) iff
+   its inputs are available through trusted producers.  Two such states with the same sources and
+   environment have the same trusted region, the same states and the same outputs, whatever else
+   (detached nodes, products of plans that cannot rerun, stored hashes) they carry. *)
+Theorem C01_plan_finished_state_unique_partial :
+  forall run plan (U : universe) (y z : psys),
+    wf_u U = true -> Finished_p run plan U y -> Finished_p run plan U z -> same_world_p U y z ->
+    same_result_p U y z.
+Proof. exact finished_p_unique. Qed.
+
+(* The other half -- every build ends in such a state -- is FALSE for the engine as the code has
+   it.  Witness 1 (= finding F9 / D43, replayed on the real system by the guard case
+   subplan-input-deleted): plan.py (1) defines the sub-plan p1 (2, inputs p1.py and data/cfg.txt)
+   and step u (4: o.txt -> u.txt); p1 defines step t (3: s.txt -> o.txt).  After a first build
+   data/cfg.txt disappears: p1 is PENDING and cannot run, its product t stays attached and
+   SUCCEEDED, so u stays SUCCEEDED; from scratch t is never defined and u is PENDING. *)
+
+Example C01_wf_u_uF9 : wf_u uF9 = true.
+Proof. exact wf_u_uF9. Qed.
+
+Theorem C01_plan_memory_refuted :
+  let inc := bwF9 wF9b (bwF9 wF9a (p_empty uF9)) in
+  let scr := bwF9 wF9b (p_empty uF9) in
+  map (fun id => (attached uF9 inc id, trusted uF9 inc id, is_succ (stt (pbase inc) id))) [1; 2; 3; 4]
+  = [(true, true, true); (true, true, false); (true, false, true); (true, true, true)] /\
+  map (fun id => (attached uF9 scr id, trusted uF9 scr id, is_succ (stt (pbase scr) id))) [1; 2; 3; 4]
+  = [(true, true, true); (true, true, false); (false, false, false); (true, true, false)] /\
+  same_result_pb uF9 inc scr = false.
+Proof. exact plan_memory_refuted. Qed.
+
+Theorem C01_plan_full_refuted : ~ C01_plan_full.
+Proof. exact plan_full_refuted. Qed.
+
+(* Witness 2 (D4 inside one build): the sub-plan p1 is edited (version 2 defines nothing): its
+   rerun drops the producer t, the consumer u of the main plan keeps SUCCEEDED (the cleanup pass
+   even keeps the detached producer because u still uses its output); from scratch u is PENDING.
+   Switching p1 back recycles t with its state: nothing runs. *)
+
+Theorem C01_plan_D4_in_build_refuted :
+  let y1 := bwD4 (wD4 1) (p_empty uF9) in
+  let inc := bwD4 (wD4 2) y1 in
+  let scr := bwD4 (wD4 2) (p_empty uF9) in
+  logD4 (wD4 2) y1 = [(2, true)] /\
+  map (fun id => (attached uF9 inc id, is_succ (stt (pbase inc) id))) [1; 2; 3; 4]
+  = [(true, true); (true, true); (false, true); (true, true)] /\
+  map (fun id => (attached uF9 scr id, is_succ (stt (pbase scr) id))) [1; 2; 3; 4]
+  = [(true, true); (true, true); (false, false); (true, false)] /\
+  same_result_pb uF9 inc scr = false /\
+  logD4 (wD4 1) inc = [(2, true)] /\
+  same_result_pb uF9 (bwD4 (wD4 1) inc) y1 = true.
+Proof. exact plan_D4_in_build_refuted. Qed.
+
+(* A history on which the engine does agree with a build from scratch: the source of t changes
+   (t and u rerun), then plan.py is rerun by an edit that keeps its definitions (every consumer
+   of a static file it declares is re-validated by its hash and skipped). *)
+Example C01_plan_history_agrees :
+  let y1 := bwOK (wOK 1 1) (p_empty uF9) in
+  let y2 := bwOK (wOK 1 2) y1 in
+  let y3 := bwOK (wOK 2 2) y2 in
+  p_build_log mix_run (plan_tab tabOK) uF9 uF9 (p_resync uF9 y1 (wOK 1 2)) = [(3, true); (4, true)] /\
+  p_build_log mix_run (plan_tab tabOK) uF9 uF9 (p_resync uF9 y2 (wOK 2 2)) = [(1, true); (2, false); (3, false); (4, false)] /\
+  same_result_pb uF9 y3 (bwOK (wOK 2 2) (p_empty uF9)) = true.
+Proof. vm_compute. repeat split; reflexivity. Qed.
